@@ -1122,6 +1122,20 @@ class Interp:
             if t is False:
                 return vals[1]
             return ("or", vals[0], vals[1])
+        if k == "or":
+            # n-ary: the first truthy operand, skipping the ones known to be false
+            kept = []
+            for v in vals:
+                t = self._truth(v)
+                if t is True:
+                    return v if not kept else ("or",) + tuple(kept) + (v,)
+                if t is None:
+                    kept.append(v)
+            if not kept:
+                return vals[-1]
+            if len(kept) == 1:
+                return kept[0]
+            return ("or",) + tuple(kept)
         return (k,) + tuple(vals)
 
     def e_Compare(self, e, env, fi):
